@@ -248,7 +248,7 @@ def run_selftests(prop):
     """seeded violations (must fire) and benign refactors (must stay silent) for the checker itself"""
     from . import selftest as ST
     out = []
-    dirs = [os.path.join(VERIF, "selftest", prop), os.path.join(VERIF, "seeded", prop)]
+    dirs = [os.path.join(VERIF, "selftest", prop)] + sorted(glob.glob(os.path.join(VERIF, "seeded", prop + "*")))
     for d in dirs:
         if not os.path.isdir(d):
             continue
